@@ -12,6 +12,7 @@ From Coq Require Import ZArith List Bool.
 From Model Require Import Bits Word Instr Sim IsaWire Load.
 From Spec Require Import IsaSpec.
 From Proofs Require Import SimNoPanic SimRefinePrims SimRefineExec SimRefineStep SimWf.
+From Proofs Require Import SimStrictSpec.
 Import ListNotations.
 Open Scope Z_scope.
 
@@ -45,6 +46,16 @@ Print Assumptions C08_entry_refines.
 (* 16-bit well-formedness (what the Rust types u16/u8 guarantee: every register, the PC, the PSR,
    the saved SP and every memory word hold 16-bit values, keyboard bytes are bytes) is preserved by
    every step, in every mode *)
+(* strict mode: a step of a strict machine either stops with one of the nine strict
+   (uninitialised-value) errors of C14, or is exactly the reference step ([abs] ignores the strict flag) *)
+Theorem C08_strict_step_refines : forall e s,
+  (forall r, 0 <= w_data (rget (s_regs s) r) < 65536) -> 0 <= s_pc s < 65536 ->
+  let '(s1, o) := step_in e s in
+  (exists x, o = OErr x /\ is_strict_err x = true) \/
+  (exists so, out_match o so /\ spec_step e (abs s) = (abs s1, so)).
+Proof. exact strict_step_refines. Qed.
+Print Assumptions C08_strict_step_refines.
+
 Theorem C08_wf_preserved : forall e s, WF s -> WF (fst (step_in e s)).
 Proof. exact wf_step_in. Qed.
 Print Assumptions C08_wf_preserved.
